@@ -178,6 +178,10 @@ def run(prog: Program, L: Ledger) -> None:
     vg = Vocabulary({"forces": ("F", {"real": True}), "self.delta": ("D", {"positive": True}), "self.temperature": ("T", {"positive": True}), "kB": ("kB", {"positive": True}),
                      "self.gamma_max_value": ("g", {"positive": True})})
     tg_ = Translator(vg)
+    from ..derived import CacheResolver
+
+    g_caches = CacheResolver(prog, fb, vg, lambda _v=vg: Translator(_v))
+    tg_.hooks.append(g_caches.hook)
     fparam = cg.params()[1]
     if fparam != "forces":
         vg.table[fparam] = ("F", {"real": True})
@@ -191,6 +195,7 @@ def run(prog: Program, L: Ledger) -> None:
         raise AnalysisError("calculate_gamma does not assign self.gamma / self.denominator")
     F_, D_, T_, kB_, g_ = (vg.sym(n, **a) for n, a in (("F", {"real": True}), ("D", {"positive": True}), ("T", {"positive": True}), ("kB", {"positive": True}), ("g", {"positive": True})))
     ref_g = sp.Min(sp.Max(F_ * D_ / (2 * kB_ * T_), -g_), g_)
+    g_caches.check(L, "Γ", "ForceBias.calculate_gamma", "|gamma| exceeds gamma_max_value for the current delta/temperature: exp(γ) overflows or the step law is not the published one")
     _eq(L, "Γ", "ForceBias.calculate_gamma:gamma", cg.where, gam, ref_g, "gamma is not clip(F·delta/(2·kB·T), −g, g)", vocab=vg)
     _eq(L, "Γ", "ForceBias.calculate_gamma:denominator", cg.where, den, sp.exp(ref_g) - sp.exp(-ref_g), "denominator is not exp(γ) − exp(−γ)", vocab=vg)
     gm = fb.class_attrs.get("gamma_max_value")
